@@ -143,6 +143,11 @@ def run(ctx):
             xyz[0, 3 * r_i] = c
             xyz[0, 3 * r_i + 1] = c + np.array([0.0957, 0, 0])
             xyz[0, 3 * r_i + 2] = c + np.array([-0.024, 0.0927, 0])
+        # every second water donates a clear hydrogen bond to the next one (O...O 0.28 nm along O-H1): hydrogen-bond observables are non-empty
+        for r_i in range(0, n // 3 - 1, 2):
+            d = xyz[0, 3 * r_i + 1] - xyz[0, 3 * r_i]
+            sh = xyz[0, 3 * r_i] + 0.28 * d / np.linalg.norm(d) - xyz[0, 3 * r_i + 3]
+            xyz[0, 3 * r_i + 3:3 * r_i + 6] += sh
         xyz = np.round(xyz * 1024) / 1024
         t = md.Trajectory(xyz.astype(np.float32), top); t.unitcell_vectors = box[None]
         bv = t.unitcell_vectors[0].astype(np.float64)
@@ -184,6 +189,24 @@ def run(ctx):
                              ("neighbors", lambda tr: [list(x) for x in md.compute_neighbors(tr, cutoff, [0, 3, 6])])):
                 if fn(t) != fn(t2):
                     viol("lattice|%s" % name, "compute_%s changes under a %s" % (name, rp["transform"]), rp)
+        # hydrogen bonds (donor-hydrogen...acceptor triplets) of the two criteria that use minimum-image geometry
+        if w > 0.8:
+            def hb(tr):
+                return (set(map(tuple, md.baker_hubbard(tr, periodic=True, exclude_water=False).tolist())),
+                        set(map(tuple, md.wernet_nilsson(tr, periodic=True, exclude_water=False)[0].tolist())))
+            (bh1, wn1), (bh2, wn2) = hb(t), hb(t2)
+            ctx.count("periodic hydrogen-bond sets compared"); ctx.count("hydrogen bonds in them", len(bh1) + len(wn1))
+            for name, s1, s2 in (("baker_hubbard", bh1, bh2), ("wernet_nilsson", wn1, wn2)):
+                diff = sorted(s1 ^ s2)
+                decided = []
+                for (dn, hy, ac) in diff:
+                    dha = float(md.compute_distances(t, [[hy, ac]])[0, 0]); dda = float(md.compute_distances(t, [[dn, ac]])[0, 0])
+                    th = float(np.degrees(md.compute_angles(t, [[dn, hy, ac]])[0, 0])); dl = float(np.degrees(md.compute_angles(t, [[hy, dn, ac]])[0, 0]))
+                    near = (abs(dha - 0.25) < 1e-3 or abs(th - 120.0) < 0.5) if name == "baker_hubbard" else abs(dda - (0.33 - 0.00044 * dl * dl)) < 1e-3
+                    if not near and max(dha, dda) < 0.5 * w - 1e-3:
+                        decided.append((dn, hy, ac))
+                if decided:
+                    viol("lattice|%s" % name, "%s(periodic=True) reports a different set of hydrogen bonds after a %s: %s appear or disappear" % (name, rp["transform"], decided[:4]), rp)
         c1 = md.compute_contacts(t, contacts=[[0, 1], [2, 5], [3, 7]], scheme="closest", periodic=True)[0]
         c2 = md.compute_contacts(t2, contacts=[[0, 1], [2, 5], [3, 7]], scheme="closest", periodic=True)[0]
         okc = c1[0] < 0.5 * w - 1e-3
